@@ -8,7 +8,7 @@ from typing import Any, List, Optional
 
 from . import schema
 from .domains import (BoolV, BoundV, ClsV, Const, DictE, ElemE, ExcV, ExtV, FuncV, IdxE, IterV, LamV, LenV, ListE,
-                      PartV, MethV, ModV, NoneV, NumV, ObjE, Ref, S, State, StrV, TupleV, Unknown, Val)
+                      TallyV, PartV, MethV, ModV, NoneV, NumV, ObjE, Ref, S, State, StrV, TupleV, Unknown, Val)
 from .front import AnalysisError, norm
 
 
@@ -187,7 +187,8 @@ class ModelMixin2:
             c = s.new(ElemE(pe2.prov, None, p.sym, True, ('iterchild', S(p.sym)), schema=pe2.schema))
             self.hook('iter-child', s, None, parent=p, child=Ref('elem', c), live=live)
             return [(Ref('elem', c), s)]
-        sp = IterSpec(0, None, None, make, f'children({self.describe(p, st)})')
+        known = any(isinstance(e, ElemE) and e.parent == p.sym and e.attached is True and not (e.origin and e.origin[0] == 'iterchild') for e in st.heap.values())
+        sp = IterSpec(1 if known else 0, None, None, make, f'children({self.describe(p, st)})')      # a parent with a known attached child is not empty
         if live:
             sp.live_parent = p.sym
         return sp
@@ -507,7 +508,28 @@ class ModelMixin2:
             new[d] = (E, tuple(sorted(c.items())), OK)
         st.mon['lapp'] = new
 
+    def _search_roll(self, st: State, depth, count):
+        """which attached child X of the traversed parent has been compared (`is`) with the current child, and found different, in
+        *every* iteration so far"""
+        miss = dict(st.mon.get('srchmiss') or {})
+        allm = dict(st.mon.get('srchall') or {})
+        m = miss.pop(depth, None)
+        if count == 0:
+            allm[depth] = 'start'
+        elif depth in allm:
+            allm[depth] = m if (m is not None and allm[depth] in ('start', m)) else None
+        st.mon['srchmiss'] = miss
+        st.mon['srchall'] = allm
+
     def loop_exit(self, st, depth, spec, count):
+        if count > 0 and getattr(spec, 'live_parent', None) is not None:
+            self._search_roll(st, depth, count)
+            x = (st.mon.get('srchall') or {}).get(depth)
+            if isinstance(x, int) and x in st.heap:
+                xe = st.get(x)
+                if isinstance(xe, ElemE) and xe.attached is True and xe.parent == spec.live_parent:
+                    # every child was compared with X and was not X, yet X is a child: this way out of the loop does not exist
+                    st.mon['infeasible'] = True
         la = st.mon.get('lapp') or {}
         if depth not in la or count == 0:
             return
@@ -524,6 +546,8 @@ class ModelMixin2:
     def loop_iter_start(self, st: State, depth, spec, count):
         if spec.exact is None:
             self._lapp_roll(st, depth, count)
+            if getattr(spec, 'live_parent', None) is not None:
+                self._search_roll(st, depth, count)
         stale = [f for f in st.facts if f[0] in ('nonempty', 'emptystr') and ('each(' in f[1] or 'child(' in f[1])]
         for f in stale:
             st.facts.discard(f)          # string facts about the previous generic element
@@ -620,7 +644,7 @@ class ModelMixin2:
         return Ref('idx', sym)
 
     def loop_done(self, st: State, depth):
-        for name in ('itlog', 'adv', 'advsym', 'advbase', 'livedepth', 'lapp'):
+        for name in ('itlog', 'adv', 'advsym', 'advbase', 'livedepth', 'lapp', 'srchmiss', 'srchall'):
             m = st.mon.get(name)
             if m and depth in m:
                 m = dict(m)
@@ -1110,9 +1134,26 @@ class ModelMixin2:
         if isinstance(l, NoneV) or isinstance(r, NoneV):
             which = self.describe(l if isinstance(l, NoneV) else r, st)
             return [(self.exc('TypeError', st, node, f'unsupported operand type(s) for {opn}: NoneType ({which})'), st)]
+        if isinstance(l, TallyV) and isinstance(r, Const) and isinstance(r.v, int) and not isinstance(r.v, bool) and opn in ('Add', 'Sub') and abs(r.v) <= 2:
+            d = r.v if opn == 'Add' else -r.v
+            if abs(l.lag - d) > 3:
+                return [(NumV(('counter',)), st)]          # drifted away from the number of inserted nodes: just a number
+            return [(TallyV(l.origin, l.base, l.lag - d), st)]
+        if opn == 'Add' and isinstance(r, Ref) and r.kind == 'idx' and isinstance(l, TallyV):
+            l, r = r, l
+        if opn == 'Add' and isinstance(l, Ref) and l.kind == 'idx' and isinstance(r, TallyV) and r.base == l.sym and l.sym in st.heap:
+            # <position> + <tally of the nodes inserted there>: `lag` places before the anchor, whatever the count is by now
+            e: IdxE = st.get(l.sym)
+            if e.kind == 'fresh' and abs(r.lag) <= 3:
+                return [(Ref('idx', st.new(IdxE('fresh', e.parent, e.anchor, delta=-r.lag, why=e.why))), st)]
+            if e.kind == 'end' and abs(r.lag) <= 3:
+                return [(Ref('idx', st.new(IdxE('end', e.parent, e.anchor, slack=-r.lag, why=e.why))), st)]
         if isinstance(l, Ref) and l.kind == 'idx' and isinstance(r, Const) and isinstance(r.v, int) and opn in ('Add', 'Sub'):
             e: IdxE = st.get(l.sym)
             d = r.v if opn == 'Add' else -r.v
+            if e.ins >= 3 and e.kind in ('fresh', 'end'):
+                # three or more nodes were inserted here since the index was taken: the offset is beyond the tracked range
+                return [(Ref('idx', st.new(IdxE('stale', e.parent, e.anchor, why='constant offset from a position in front of which three or more nodes were inserted meanwhile'))), st)]
             if e.kind == 'end':
                 ns = e.slack + d
                 e2 = replace(e, slack=max(min(ns, 3), -3), descr='')
